@@ -114,6 +114,9 @@ func (vc *VC) doCall(st *State, fr *Frame, call *ssa.CallCommon, instr ssa.Instr
 			if c, ok := vc.fieldCon[fv.From]; ok {
 				vc.check(st, fr, "safety", "nil-func-call", vc.safetyTags(fr), sNot(sEq(fv.Term, "0")), pos)
 				names := map[string]nameEntry{}
+				if fv.Owner != "" {
+					names["self"] = nameEntry{V: intv(fv.Owner), T: fv.OwnerT}
+				}
 				for i, a := range args {
 					n := fmt.Sprintf("arg%d", i)
 					if i < len(c.Params) {
@@ -346,7 +349,11 @@ func (vc *VC) callEvent(st *State, fr *Frame, target string, args []Val, res []V
 			full = q
 		}
 		if full != target && ev.Target != target {
-			continue
+			// static function or method: resolve the event target and compare by identity
+			fn, err := vc.resolveFunc(ev.Target, vc.pkgOf(ev.Pkg))
+			if err != nil || fn.String() != target {
+				continue
+			}
 		}
 		extra := map[string]nameEntry{}
 		for i, n := range ev.Vars {
